@@ -420,6 +420,7 @@ def monitor_verdicts(rec, input_bytes, residual=True, entry=None):
             if d != 0:
                 out.append(dict(kind="residual", sig=dict(kind="residual", entry=entry, bytes=d),
                                 detail=dict(residual_bytes=d)))
+
     return out
 
 
